@@ -14,28 +14,30 @@ pub open spec fn fits(v: u64, n: usize) -> bool { n >= 64 || v < (1u64 << (n as 
 pub struct BitWriter { _o: u8 }
 impl BitWriter {
     pub uninterp spec fn idx(&self) -> int;
+    /// ghost: how many Huffman table descriptions the bytes written so far (and not discarded) contain
+    pub uninterp spec fn tables(&self) -> int;
     #[verifier::external_body]
     pub fn index(&self) -> (r: usize) ensures r == self.idx(), { unimplemented!() }
     /// documented contract of BitWriter::write_bits
     #[verifier::external_body]
     pub fn write_bits<T: Into<u64> + Copy>(&mut self, bits: T, num_bits: usize)
         requires num_bits <= 64, fits(into_u64(bits), num_bits),
-        ensures final(self).idx() == old(self).idx() + num_bits,
+        ensures final(self).idx() == old(self).idx() + num_bits, final(self).tables() == old(self).tables(),
     { unimplemented!() }
     #[verifier::external_body]
     pub fn change_bits<T: Into<u64> + Copy>(&mut self, idx: usize, bits: T, num_bits: usize)
         requires idx + num_bits < old(self).idx(),
-        ensures final(self).idx() == old(self).idx(),
+        ensures final(self).idx() == old(self).idx(), final(self).tables() == old(self).tables(),
     { unimplemented!() }
     #[verifier::external_body]
     pub fn reset_to(&mut self, index: usize)
         requires index % 8 == 0, index <= old(self).idx(),
-        ensures final(self).idx() == index,
+        ensures final(self).idx() == index,     // (what was written after `index`, including a table description, is discarded)
     { unimplemented!() }
     #[verifier::external_body]
     pub fn append_bytes(&mut self, data: &[u8])
         requires old(self).idx() % 8 == 0,
-        ensures final(self).idx() == old(self).idx() + 8 * data@.len(),
+        ensures final(self).idx() == old(self).idx() + 8 * data@.len(), final(self).tables() == old(self).tables(),
     { unimplemented!() }
 }
 pub uninterp spec fn into_u64<T>(v: T) -> u64;
@@ -55,7 +57,9 @@ impl HuffmanTable {
 #[verifier::external_body]
 pub fn huff_encode(table: &HuffmanTable, writer: &mut BitWriter, data: &[u8], with_table: bool, single_stream: bool)
     requires old(writer).idx() % 8 == 0,
-    ensures final(writer).idx() >= old(writer).idx() + 8 /* every stream ends with a padding marker: at least one byte */, final(writer).idx() % 8 == 0, final(writer).idx() <= old(writer).idx() + 16 * 8 * (data@.len() + 1024),
+    ensures
+        final(writer).tables() == old(writer).tables() + (if with_table { 1int } else { 0int }),
+        final(writer).idx() >= old(writer).idx() + 8 /* every stream ends with a padding marker: at least one byte */, final(writer).idx() % 8 == 0, final(writer).idx() <= old(writer).idx() + 16 * 8 * (data@.len() + 1024),
 { unimplemented!() }
 
 pub proof fn lemma_widths()
@@ -88,6 +92,9 @@ pub fn compress_literals(
         old(writer).idx() % 8 == 0,
     ensures
         final(writer).idx() % 8 == 0,
+        // C02/C16 table synchronisation: the caller stores the returned table as "the table the decoder has"; so a table may be
+        // returned only if its description was actually written into the (kept) output of this call
+        r is Some ==> final(writer).tables() == old(writer).tables() + 1,
 {
     proof { lemma_widths(); broadcast use into_u64_u8, into_u64_u32, into_u64_u64; }
     let reset_idx = writer.index();
@@ -118,8 +125,8 @@ pub fn compress_literals(
     let (size_format, size_bits) = match literals.len() {
         0..6 => (0b00u8, 10),
         6..1024 => (0b01, 10),
-        1024..=16384 => (0b10, 14),
-        16385..262144 => (0b11, 18),
+        1024..16384 => (0b10, 14),
+        16384..262144 => (0b11, 18),
         _ => vpanic(),
     };
 
